@@ -23,9 +23,15 @@ Oracle (from the property text only):
                       every mode: every file afterwards is its complete original or its complete
                       formatted text; any additional file is a complete original / formatted copy.
 
-Violations are reported once per (fault kinds, emit mode, command line, what) at the SMALLEST failing
-tree (shapes and positions are enumerated simplest first); a violating pair-of-faults case is folded
-into the single-fault witness when one of its faults alone violates in the same way.
+Reporting.  A fault tree (shape + fault set) is run in all 18 (emit mode, command line) cells.  For each
+kind of violation (`what`) the set of violating cells is the tree's signature and is part of the reported
+`what`, e.g. `healthy-root-not-formatted [files: roots F,H; files+backup: roots F,H]`; the case id is the
+tree, e.g. `shape=S1-root-only fault=toml-malformed`.  Trees with the same fault kinds at the same kind of
+position (root / module) and the same (what, signature) form one group, reported once at its smallest
+tree (shapes and positions are enumerated simplest first).  A violating cell of a two-fault tree is
+folded into the one-fault tree obtained by dropping one fault when that tree violates the same way in
+the same cell.  So a listed finding that starts failing in one more cell, position class or fault kind
+is a new violation.
 """
 
 import json
@@ -56,8 +62,10 @@ ASSUMPTIONS = [
     "what is printed for it is C06's subject",
     "the sandbox runs as root, so permission bits are not a fault: unreadable = invalid UTF-8, dangling symlink, "
     "directory in place of the file",
-    "violations are grouped per (fault kinds, emit mode, command line, what) and reported at the smallest failing "
-    "tree; a violating two-fault case is folded into a violating single-fault witness of one of its faults",
+    "a violation is identified by (fault tree, what, set of violating (mode, command line) cells); trees with the "
+    "same fault kinds at the same position class (root / module) and the same (what, cells) are reported once, at "
+    "the smallest tree; a violating cell of a two-fault tree is folded into the one-fault sub-tree that violates "
+    "the same way in the same cell",
 ]
 
 # --------------------------------------------------------------------------------------------- trees
@@ -769,7 +777,7 @@ def main():
             t = members[0]
             tid = tree_id(t["shape"], t["faults"])
             what = f"{w} [{sig}]"
-            cells_of_w = sorted((m, a) for m, a, ww in viol_cells[tid] if ww == w)
+            cells_of_w = [(m, a) for m, a in CELLS if (m, a, w) in viol_cells[tid]]
             first = t["first_bad"]
             detail = dict(t["tree"])
             detail["what"] = w
